@@ -1478,3 +1478,125 @@ CONTRACTS = CONTRACTS + [BITS_DEC_CONSTRUCTED, BITS_DEC_INDEF]
 
 # ---- bounded instances, labelled so ---------------------------------------------------------------------------------------------
 OPEN_TYPES.bounded = OPEN_TYPES_INDEF.bounded = 'a record of one governing member and one open-type member'
+
+
+# ---- open types for records of ANY size: every resolvable open-type member is replaced by its decoded value, nothing else -------
+from z3 import Select
+O_HASOT = z3.Function('member.hasOpenType', I, BoolSort())
+O_OPT = z3.Function('member.isOptional', I, BoolSort())
+O_ISVAL = z3.Function('isValueOf', I, BoolSort())
+O_GOV = z3.Function('governing.value.of.member', I, I)
+O_GOVISVAL = z3.Function('governing.isValue', I, BoolSort())
+O_CALLER_HAS = z3.Function('callerMap.has', I, BoolSort())
+O_CALLER_TYPE = z3.Function('callerMap.type', I, I)
+O_DEFAULT_HAS = z3.Function('declaredMap.has', I, I, BoolSort())
+O_DEFAULT_TYPE = z3.Function('declaredMap.type', I, I, I)
+O_OCTETS = z3.Function('octets.of', I, I)
+O_DEC = z3.Function('decoded.as', I, I, I)
+O_SLOTS0 = z3.Const('slots0', z3.ArraySort(I, I))
+O_N = z3.Int('members.N')
+_oj = z3.Int('j!q')
+
+
+def o_resolves(j):
+    g = O_GOV(j)
+    return And(O_HASOT(j), Not(And(O_OPT(j), Not(O_ISVAL(Select(O_SLOTS0, j))))), O_GOVISVAL(j),
+               Or(O_CALLER_HAS(g), O_DEFAULT_HAS(j, g)))
+
+
+def o_expected(j):
+    g = O_GOV(j)
+    rtype = If(O_CALLER_HAS(g), O_CALLER_TYPE(g), O_DEFAULT_TYPE(j, g))
+    s0 = Select(O_SLOTS0, j)
+    return If(o_resolves(j), O_DEC(O_OCTETS(s0), rtype), s0)
+
+
+class _OpenMembers(_RecSeqV):
+    """namedTypes.namedTypes of a record of any size: per-position flags are uninterpreted functions of the position"""
+
+    @property
+    def length(self):
+        return O_N
+
+    def elem(self, i):
+        def declared_getitem(ex, self_, gov):
+            g = toint(gov.fields['__id__'])
+            if ex.choose(O_DEFAULT_HAS(i, g), 'declared-map-has'):
+                return Obj('Asn1Type', {'__id__': O_DEFAULT_TYPE(i, g)}, name='declaredType')
+            raise _Raise(ExcV('KeyError'))
+        ot = Obj('OpenType', {'__truthy__': O_HASOT(i), 'name': i}, {'__getitem__': declared_getitem}, name='openType')
+        return Obj('NamedType', {'openType': ot, 'isOptional': O_OPT(i), 'name': i}, name='namedType')
+
+
+def _o_record(ex, env):
+    def member(ident):
+        return Obj('Any', {'__id__': ident, 'isValue': O_ISVAL(ident), 'typeId': 'any-type-id'},
+                   {'asOctets': lambda ex2, self: Obj('bytes', {'__id__': O_OCTETS(ident)}, name='octets')}, name='member')
+
+    def by_pos(ex2, self, idx, *a, **k):
+        return member(Select(self.fields['slots'], toint(idx)))
+
+    def by_name(ex2, self, name, *a, **k):
+        # the governing member of open-type member `name` (positions stand for names); it is not itself an open type
+        i = toint(name)
+        return Obj('Value', {'__id__': O_GOV(i), 'isValue': O_GOVISVAL(i)}, name='governingValue')
+
+    def set_pos(ex2, self, idx, value, *a, **k):
+        self.fields['slots'] = z3.Store(self.fields['slots'], toint(idx), toint(value.fields['__id__']))
+        return self
+    return Obj('Sequence', {'slots': O_SLOTS0}, {'getComponentByPosition': by_pos, 'getComponentByName': by_name,
+                                                 'setComponentByPosition': set_pos}, name='asn1Object')
+
+
+def _o_caller_map(ex, env):
+    def getitem(ex2, self, gov):
+        g = toint(gov.fields['__id__'])
+        if ex2.choose(O_CALLER_HAS(g), 'caller-map-has'):
+            return Obj('Asn1Type', {'__id__': O_CALLER_TYPE(g)}, name='callerType')
+        raise _Raise(ExcV('KeyError'))
+    return Obj('dict', {'__truthy__': True}, {'__getitem__': getitem}, name='openTypes')
+
+
+def _o_decode(ex, stream, asn1Spec=None, **options):
+    """assumed contract of decodeFun on the captured octets: a value of the guiding type, or PyAsn1Error"""
+    if ex.choose(ex.fresh('inner.raises', BoolSort()), 'inner-raises'):
+        raise _Raise(ExcV('PyAsn1Error'))
+    return Obj('Decoded', {'__id__': O_DEC(toint(stream.fields['octets'].fields['__id__']), toint(asn1Spec.fields['__id__']))},
+               name='decodedInner')
+
+
+_o_decode.is_generator_model = True
+
+
+def _o_inv(ex, rec, upto):
+    sl = rec.fields['slots']
+    return And(z3.ForAll([_oj], z3.Implies(And(_oj >= 0, _oj < toint(upto)), Select(sl, _oj) == o_expected(_oj))),
+               z3.ForAll([_oj], z3.Implies(Or(_oj < 0, _oj >= toint(upto)), Select(sl, _oj) == Select(O_SLOTS0, _oj))))
+
+
+OPEN_TYPES_N = Contract(
+    id='ber.decoder::ConstructedPayloadDecoderBase.valueDecoder@open-types[any-size]', file=F,
+    qual='ConstructedPayloadDecoderBase.valueDecoder', region="openTypes or options.get('decodeOpenTypes', False)",
+    is_generator=True, properties=['C18'],
+    params=dict(self=PObj('ConstructedPayloadDecoderBase'),
+                namedTypes=PConst(Obj('NamedTypes', {'namedTypes': _OpenMembers([], names=None), 'hasOpenTypes': True}, name='namedTypes')),
+                asn1Object=PDerived(_o_record), openTypes=PDerived(_o_caller_map), options=POptions(decodeOpenTypes=PBool())),
+    globals={'univ': {'SetOf': {'typeId': 'setof-type-id'}, 'SequenceOf': {'typeId': 'seqof-type-id'}, '__name__': 'univ'},
+             'asSeekableStream': FnV(lambda ex, octets: Obj('Stream', {'octets': octets}, name='innerStream'), 'asSeekableStream'),
+             'resolved_upto': FnV(_o_inv, 'resolved_upto'), 'N': O_N},
+    requires=['N >= 0'],
+    calls={'decodeFun': _o_decode},
+    loops={0: Loop(index='k', invariant=['resolved_upto(asn1Object, k)', 'not value_yielded()'], havoc_fields=['asn1Object.slots'])},
+    exit_ensures=[
+        # C18 for a record of any size: a member whose governing value resolves (caller's map first, declared map second)
+        # holds the inner value decoded as the mapped type; every other member -- no open type, absent OPTIONAL, valueless or
+        # unmapped governing value -- is exactly what it was
+        ('resolvable-members-decoded-all-others-untouched', 'resolved_upto(asn1Object, N)')],
+    may_raise={'PyAsn1Error': True},
+    note='open-type members that are not SET OF / SEQUENCE OF (those: bounded contract); governing members are not themselves '
+         'open-type members')
+CONTRACTS = CONTRACTS + [OPEN_TYPES_N]
+OPEN_TYPES_N_INDEF = _copy.copy(OPEN_TYPES_N)
+OPEN_TYPES_N_INDEF.id = 'ber.decoder::ConstructedPayloadDecoderBase.indefLenValueDecoder@open-types[any-size]'
+OPEN_TYPES_N_INDEF.qual = 'ConstructedPayloadDecoderBase.indefLenValueDecoder'
+CONTRACTS = CONTRACTS + [OPEN_TYPES_N_INDEF]
